@@ -28,6 +28,7 @@ func init() {
 
 type c10Replay struct {
 	Files   map[string]string `json:"files"`
+	Links   []string          `json:"tables_that_are_symbolic_links_to_store"`
 	Program string            `json:"program"`
 	CrashAt string            `json:"crash_at"`
 	Detail  string            `json:"detail"`
@@ -37,9 +38,25 @@ type c10Tx struct {
 	files   map[string]string
 	program string
 	tables  []string // pre-existing tables touched
+	links   []string // those of them that are symbolic links to store/<name>
 }
 
-func genC10Tx(r *core.Rng) c10Tx {
+// c10Link turns the named tables of a freshly copied directory into symbolic links to store/<name>.
+func c10Link(dir string, links []string) {
+	for _, n := range links {
+		_ = os.MkdirAll(filepath.Join(dir, "store"), 0755)
+		_ = os.Rename(filepath.Join(dir, n), filepath.Join(dir, "store", n))
+		_ = os.Symlink(filepath.Join("store", n), filepath.Join(dir, n))
+	}
+}
+
+// c10Read reads a table through its path name (following a link).
+func c10Read(dir, name string) ([]byte, bool) {
+	b, err := os.ReadFile(filepath.Join(dir, name))
+	return b, err == nil
+}
+
+func genC10Tx(r *core.Rng, forceLink bool) c10Tx {
 	formats := []string{"csv", "csv", "tsv", "json", "jsonl", "ltsv"}
 	nExisting := r.Range(1, 3)
 	tx := c10Tx{files: map[string]string{}}
@@ -64,6 +81,9 @@ func genC10Tx(r *core.Rng) c10Tx {
 		name := fmt.Sprintf("t%d.%s", k+1, f)
 		tx.files[name] = renderFile(f, t)
 		tx.tables = append(tx.tables, name)
+		if r.P(25) || (k == 0 && forceLink) {
+			tx.links = append(tx.links, name)
+		}
 		tbl := "`" + name + "`"
 		switch r.Intn(4) {
 		case 0:
@@ -89,7 +109,7 @@ func genC10Tx(r *core.Rng) c10Tx {
 
 func c10Case(w *core.Worker, i int) {
 	r := w.Rng(i, "")
-	tx := genC10Tx(r)
+	tx := genC10Tx(r, i%4 == 1)
 	base := core.FreshDir(w.Work, "base")
 	core.WriteFiles(base, tx.files)
 	txDigest := core.Digest(tx.program, fmt.Sprint(len(tx.files)))
@@ -100,10 +120,11 @@ func c10Case(w *core.Worker, i int) {
 	clean := filepath.Join(w.Work, "clean")
 	_ = os.RemoveAll(clean)
 	copyDir(base, clean)
+	c10Link(clean, tx.links)
 	res := run(clean, nil, nil)
 	if res.Code != 0 {
 		if strings.Contains(res.Stderr, "Fatal Error") || strings.Contains(res.Stderr, "panic:") {
-			w.Violation("clean-run-internal-failure", fmt.Sprintf("the transaction itself failed internally: %s", res), c10Replay{Files: small(tx.files), Program: tx.program})
+			w.Violation("clean-run-internal-failure", fmt.Sprintf("the transaction itself failed internally: %s", res), c10Replay{Files: small(tx.files), Links: tx.links, Program: tx.program})
 		} else {
 			w.Inconclusive(fmt.Sprintf("the generated transaction fails by itself: %s", res))
 		}
@@ -111,15 +132,21 @@ func c10Case(w *core.Worker, i int) {
 	}
 	newSnap := core.TakeSnap(clean)
 	oldSnap := core.TakeSnap(base)
+	oldData, newData := map[string][]byte{}, map[string][]byte{}
+	for _, name := range tx.tables {
+		oldData[name], _ = c10Read(base, name)
+		newData[name], _ = c10Read(clean, name)
+	}
 	for _, n := range newSnap.Names() {
 		if core.IsControlFile(n) {
-			w.Violation("leftover-after-clean-run", "control file left after a successful run: "+n, c10Replay{Files: small(tx.files), Program: tx.program})
+			w.Violation("leftover-after-clean-run", "control file left after a successful run: "+n, c10Replay{Files: small(tx.files), Links: tx.links, Program: tx.program})
 		}
 	}
 	// trace run → crash points
 	tr := filepath.Join(w.Work, "trace")
 	_ = os.RemoveAll(tr)
 	copyDir(base, tr)
+	c10Link(tr, tx.links)
 	tracePath := filepath.Join(w.Work, "trace.log")
 	_ = os.Remove(tracePath)
 	res = run(tr, []string{"VERIF_TRACE=" + tracePath}, nil)
@@ -141,26 +168,26 @@ func c10Case(w *core.Worker, i int) {
 	judge := func(dir, at string) {
 		snap := core.TakeSnap(dir)
 		for _, name := range tx.tables {
-			e, ok := snap[name]
+			data, ok := c10Read(dir, name)
 			if !ok {
 				w.Violation("table-missing@"+pointName(at), fmt.Sprintf("after dying at %s table %s does not exist any more; directory: %v", at, name, snap.Names()),
-					c10Replay{Files: small(tx.files), Program: tx.program, CrashAt: at})
+					c10Replay{Files: small(tx.files), Links: tx.links, Program: tx.program, CrashAt: at})
 				continue
 			}
-			if !bytes.Equal(e.Data, oldSnap[name].Data) && !bytes.Equal(e.Data, newSnap[name].Data) {
-				w.Violation("table-mixed@"+pointName(at), fmt.Sprintf("after dying at %s table %s (%d bytes) equals neither its old (%d bytes) nor its new (%d bytes) contents", at, name, len(e.Data), len(oldSnap[name].Data), len(newSnap[name].Data)),
-					c10Replay{Files: small(tx.files), Program: tx.program, CrashAt: at})
+			if !bytes.Equal(data, oldData[name]) && !bytes.Equal(data, newData[name]) {
+				w.Violation("table-mixed@"+pointName(at), fmt.Sprintf("after dying at %s table %s (%d bytes) equals neither its old (%d bytes) nor its new (%d bytes) contents", at, name, len(data), len(oldData[name]), len(newData[name])),
+					c10Replay{Files: small(tx.files), Links: tx.links, Program: tx.program, CrashAt: at})
 			}
 		}
 		if e, ok := snap["bystander.csv"]; !ok || !bytes.Equal(e.Data, oldSnap["bystander.csv"].Data) {
-			w.Violation("bystander-changed@"+pointName(at), "a table the transaction only read was changed", c10Replay{Files: small(tx.files), Program: tx.program, CrashAt: at})
+			w.Violation("bystander-changed@"+pointName(at), "a table the transaction only read was changed", c10Replay{Files: small(tx.files), Links: tx.links, Program: tx.program, CrashAt: at})
 		}
 		// usability after removing the leftover control files
 		removeControlFiles(dir)
 		for _, name := range tx.tables {
 			p := core.RunProc(core.ProcOpts{Dir: dir, Args: csvqArgs("-q", "--wait-timeout", "1", fmt.Sprintf("SELECT COUNT(*) FROM `%s`; UPDATE `%s` SET c1 = 'probe' WHERE id = 1;", name, name)), Timeout: 60 * time.Second})
 			if p.Code != 0 {
-				w.Violation("unusable@"+pointName(at), fmt.Sprintf("after dying at %s and removing the control files, table %s is not usable: %s", at, name, p), c10Replay{Files: small(tx.files), Program: tx.program, CrashAt: at})
+				w.Violation("unusable@"+pointName(at), fmt.Sprintf("after dying at %s and removing the control files, table %s is not usable: %s", at, name, p), c10Replay{Files: small(tx.files), Links: tx.links, Program: tx.program, CrashAt: at})
 			}
 		}
 	}
@@ -169,6 +196,7 @@ func c10Case(w *core.Worker, i int) {
 		d := filepath.Join(w.Work, "crash")
 		_ = os.RemoveAll(d)
 		copyDir(base, d)
+	c10Link(d, tx.links)
 		p := run(d, []string{"VERIF_CRASH_AT=" + at}, nil)
 		if p.Signal != 9 {
 			w.Inconclusive(fmt.Sprintf("crash at %s did not kill the process (%s)", at, p))
@@ -181,9 +209,12 @@ func c10Case(w *core.Worker, i int) {
 		w.Case(core.Digest(txDigest, at), true)
 	}
 	w.Count("crash_runs", int64(fired))
+	if len(tx.links) > 0 {
+		w.Count("transactions_with_a_symlinked_table", 1)
+	}
 
 	// syscall walk with strace (thorough, first 20 transactions)
-	if w.Tier == "thorough" && i < 20 {
+	if (w.Tier == "thorough" && i < 20) || i < 3 {
 		c10Syscalls(w, tx, base, run, judge, txDigest)
 	}
 	if i < 3 {
@@ -219,6 +250,7 @@ func c10Syscalls(w *core.Worker, tx c10Tx, base string, run func(string, []strin
 	cnt := filepath.Join(w.Work, "cnt")
 	_ = os.RemoveAll(cnt)
 	copyDir(base, cnt)
+	c10Link(cnt, tx.links)
 	out := filepath.Join(w.Work, "strace.cnt")
 	p := run(cnt, []string{"GOMAXPROCS=1"}, []string{"strace", "-f", "-c", "-o", out, "-e", "trace=" + strings.Join(calls, ",")})
 	if p.Code != 0 {
@@ -250,6 +282,7 @@ func c10Syscalls(w *core.Worker, tx c10Tx, base string, run func(string, []strin
 			d := filepath.Join(w.Work, "scrash")
 			_ = os.RemoveAll(d)
 			copyDir(base, d)
+	c10Link(d, tx.links)
 			at := fmt.Sprintf("syscall:%s#%d", sc, n)
 			p := run(d, []string{"GOMAXPROCS=1"}, []string{"strace", "-f", "-o", "/dev/null", "-e", "trace=" + sc, "-e", fmt.Sprintf("inject=%s:signal=SIGKILL:when=%d", sc, n)})
 			if p.Signal != 9 && p.Code != 137 && p.Code != -1 {
